@@ -1,12 +1,16 @@
 """C07 — a process sees exactly its declared variables, always from the current hierarchy."""
 import random
-from harness import common, wire, struct
+from harness import common, wire, struct, live
 
 FAMILY = 'wire (views) + struct (views after structural updates)'
 RULE = ('wire stream: as C06, kind view: the topology view of a process as absolute paths and the states dict handed '
         'to it, compared with Model/Wire.v; struct stream: histories of structural updates (as C09) after each of '
         'which the view of an observing process wired to both colonies is rebuilt and compared with an independent '
-        'projection of Engine.state.get_value(). Non-trivial: >=2 ports (wire) / >=3 updates (struct).')
+        'projection of Engine.state.get_value(); live stream: the same kinds of histories issued from inside a running '
+        'engine by a director process or a director step, while a process and two steps with glob ports (one in the '
+        'director\'s layer, one after it), a glob-free probe wired to a node that is deleted and re-added under the '
+        'same key within a tick, and a sensor inside every generated compartment wired upward through ".." log at every '
+        'invocation the states they are handed next to the hierarchy at that moment. Non-trivial: >=2 ports (wire) / >=3 updates (struct).')
 ASSUMPTIONS = __import__('harness.c06', fromlist=['x']).ASSUMPTIONS + [
     'the struct stream is decided by the oracle only (the model has no integrated wire+struct view); the proof part for it is that view is a function of the current store and that every structural operation sets the view_expire flag',
 ]
@@ -22,10 +26,14 @@ def generate(seed, tier, enlarged=False):
     cases = wire.gen_cases(rng, n, ['view'], 3 if tier == 'quick' else 4)
     for i in range(n // 3):
         cases.append({'kind': 'structview', 'hist': struct.gen_history(rng, rng.randint(3, 8), allow_bad=False)})
+    for i in range(n // 4):
+        cases.append(live.gen_case(rng))
     return cases
 
 
 def run_impl(c):
+    if c['kind'] == 'live':
+        return live.run_impl(c)
     if c['kind'] != 'structview':
         return wire.run_impl(c)
     import contextlib, io
@@ -56,9 +64,9 @@ def run_impl(c):
 
 
 def render(c, ob):
-    if c['kind'] != 'structview':
+    if c['kind'] not in ('structview', 'live'):
         return wire.render(c, ob)
-    return "(WGen [] (Nd []) (Ok (SD [])))"       # no model side for this stream
+    return None       # no model side for this stream
 
 
 def vshape(d):
@@ -86,6 +94,8 @@ def schema_shape(s, view):
 
 def oracle(c, ob, rng):
     msgs = []
+    if c['kind'] == 'live':
+        return live.oracle(c, ob, rng)
     if c['kind'] == 'structview':
         for i, v in enumerate(ob['views']):
             if 'err' in v:
@@ -139,10 +149,14 @@ def oracle(c, ob, rng):
 
 
 def stat_key(c, ob):
+    if c['kind'] == 'live':
+        return live.stat_key(c, ob)
     return 'structview' if c['kind'] == 'structview' else wire.stat_key(c, ob)
 
 
 def nontrivial(c, ob):
+    if c['kind'] == 'live':
+        return live.nontrivial(c, ob)
     if c['kind'] == 'structview':
         return len(ob.get('views', [])) >= 3
     return wire.nontrivial(c, ob)
